@@ -21,7 +21,7 @@ RULE = (
     "containers {PatchedCounts, PatchedSumWeights, NormalisedCounts, CorrFunc (7 member subsets), "
     "CorrData, HistData, RedshiftData} x bins {1,2,3} x patches {2,3,4} x auto/cross with "
     "fingerprint contents; on each: +, sum(), the accumulation idiom total=0; total+=c (twice, operands unchanged), -, * for scalars {0,1,2,-1,0.5,float64(3)} and rejected "
-    "{True,'2',None,array}, ==/!= against copy and 6 perturbations (data containers also with the same NaN jackknife sample on both sides), incompatible operands (other binning, binning whose last edge differs by 2e-6, patch count, one patch, one sample), "
+    "{True,'2',None,array}, ==/!= against copy and 6 perturbations (data containers also with the same NaN jackknife sample on both sides, count containers with NaN counts from x * nan), incompatible operands (other binning, binning whose last edge differs by 2e-6, patch count, one patch, one sample), "
     ".bins[e]/.patches[e] for every int in [-n,n-1], out-of-range ints, every slice with "
     "start,stop in {None,-n..n}, stepped slices (step 2,3; omitted bins merge into the preceding selected bin), iteration, loops over a retained indexer after abandoned loops; commuting with sample_patch_sum/sample. "
     "Non-trivial: container with >= 2 bins or an auto container (every case has >= 2 patches); "
@@ -190,6 +190,18 @@ def run_case(case):
                 obj.samples[0, -1] = np.nan
             return (a == a) and (a == b) and not (a != b) and (a == C.clone(a)) and not (a == x)
         rec.expect_true("eq", nan_sample_equal, "containers with the same NaN jackknife sample compare unequal")
+    if not is_data:
+        # undefined counts (x * nan; also what 0 * inf leaves behind): reflexive and structural all the same
+        def nan_counts_equal():
+            with np.errstate(all="ignore"):
+                if has_mul:
+                    a, b = x * float("nan"), x * float("nan")
+                else:
+                    a, b = C.clone(x), C.clone(x)
+                    for obj in (a, b):
+                        obj.sum_weights1[0, 0] = np.nan
+            return (a == a) and (a == b) and not (a != b) and (a == C.clone(a)) and not (a == x) and (a != x)
+        rec.expect_true("eq-nan", nan_counts_equal, "a container with undefined (NaN) counts does not compare equal to itself / its copy")
     if T == "CorrFunc":  # structural over the optional members, in both directions
         for other_members in C.MEMBER_SUBSETS:
             if set(other_members) == set(members):
